@@ -751,7 +751,7 @@ func (i *interpreter) global(fr *frame, g *ssa.Global) *value {
 
 func targetStack(fr *frame) string {
 	var parts []string
-	for f := fr; f != nil && len(parts) < 8; f = f.caller {
+	for f := fr; f != nil && len(parts) < 4; f = f.caller {
 		parts = append(parts, f.fn.String())
 	}
 	return strings.Join(parts, " <- ")
